@@ -209,7 +209,11 @@ pub proof fn lemma_first_none(s: Seq<Kv>, k: Key)
 
 //@extract core/src/and.rs / impl And<T, U>
 //@rules R1
-//@keep left right
+//@keep new left right
+//@fn new
+//@ret r
+//@sig
+    ensures r.left == left, r.right == right,
 //@fn left
 //@ret r
 //@sig
